@@ -4,6 +4,8 @@ CONSTANTS
   MaxNotes = 5
   None = None
   Calls = {}
+  PopFirst = TRUE
+  BadClose = {1, 2, 3, 5, 8}
   GateBySubscription = FALSE
 SYMMETRY Perms
 INVARIANT NoViolation
